@@ -449,6 +449,6 @@ func c19FreshMaps(p *load.Prog, r *oblig.Run) {
 		}
 	}
 	if n == 0 {
-		r.Add("R19.p", "map fields of the publisher", "-", "anchor").Unknown("no update of a map field of html.Publisher found")
+		r.Add("R19.p", "map fields of the publisher", "-", "updates through a map field").OK("no map is filled through a field of html.Publisher (maps are built in locals and stored complete)")
 	}
 }
